@@ -1879,10 +1879,17 @@ class SolveUnc(_BaseODE):
                 a_rb = force[rb]
             if "d" in incrb or "v" in incrb:
                 pvnz = freqw != 0
+                # note: `rb` can be an index array (rigid-body equations
+                # not contiguous), which cannot be combined with the
+                # boolean `pvnz` in one indexing operation
                 if "v" in incrb:
-                    v[rb, pvnz] = (-1j / freqw[pvnz]) * a_rb[:, pvnz]
+                    v_rb = np.zeros(a_rb.shape, complex)
+                    v_rb[:, pvnz] = (-1j / freqw[pvnz]) * a_rb[:, pvnz]
+                    v[rb] = v_rb
                 if "d" in incrb:
-                    d[rb, pvnz] = (-1.0 / freqw2[pvnz]) * a_rb[:, pvnz]
+                    d_rb = np.zeros(a_rb.shape, complex)
+                    d_rb[:, pvnz] = (-1.0 / freqw2[pvnz]) * a_rb[:, pvnz]
+                    d[rb] = d_rb
             if "a" in incrb:
                 a[rb] = a_rb
 
